@@ -14,6 +14,32 @@ From Kit Require Export C16.Model C16.Spec Lib.CheckLib.
 Definition mkc (sizes : list Z) (dflt : Z) : consumer :=
   {| csizes := map Z.to_nat sizes; cdflt := Z.to_nat dflt |}.
 
+(* one call on the wrapper: Read with a buffer of n bytes, or WriteTo to a destination that
+   accepts b more Write calls while the per-source copies read with (sizes, dflt) *)
+Inductive zop := ZRead (n : Z) | ZWriteTo (sizes : list Z) (dflt : Z) (b : option Z).
+
+Definition mop_of (o : zop) : mop :=
+  match o with
+  | ZRead n => ORead (Z.to_nat n)
+  | ZWriteTo sizes dflt b => OWriteTo (mkc sizes dflt) (option_map Z.to_nat b)
+  end.
+
+(* the calls C16_multi_any_path_spec speaks of ([op_ok]) *)
+Definition zop_ok (o : zop) : bool :=
+  match o with
+  | ZRead n => (0 <? n)%Z
+  | ZWriteTo sizes dflt b =>
+      forallb (fun z => (0 <? z)%Z) sizes && (0 <? dflt)%Z &&
+      match b with None => true | Some _ => false end
+  end.
+
+Fixpoint eqb_outs (a b : list (list N * err)) : bool :=
+  match a, b with
+  | [], [] => true
+  | (x, e) :: a', (y, f) :: b' => eqb_listN x y && err_eqb e f && eqb_outs a' b'
+  | _, _ => false
+  end.
+
 Inductive case :=
 | CLimit (n : Z) (s : list rd) (sizes : list Z) (dflt : Z) (stop : option Z) (ncl : Z)
          (obs_out : list N) (obs_err : err) (obs_closes_before obs_closes_after : Z)
@@ -22,6 +48,10 @@ Inductive case :=
          (obs_out : list N) (obs_err : err) (obs_closes_before obs_closes_after : list Z)
 | CTee (s : list rd) (budget : option Z) (sizes : list Z) (dflt : Z) (stop : option Z) (ncl : Z)
        (obs_out : list N) (obs_err : err) (obs_written : list N) (obs_src_closes obs_w_closes : Z)
+(* MultiReaderCloser used by an arbitrary sequence of calls ([zop]), then [ncl] Close calls:
+   what every call delivered and reported, and the close counts before / after Close *)
+| CMultiUse (srcs : list (list rd * bool)) (ops : list zop) (ncl : Z)
+            (obs : list (list N * err)) (obs_closes_before obs_closes_after : list Z)
 (* the Go type of wrapper [w] was observed (interface assertion) to implement / not implement [i] *)
 | CIface (w : wrapper) (i : iface) (obs_implemented : bool).
 
@@ -46,6 +76,9 @@ Definition model_agrees (v : variant) (c : case) : bool :=
         tee_run s (option_map Z.to_nat b) (mkc sizes dflt) (option_map Z.to_nat st) (Z.to_nat k) in
       eqb_listN mo o && opt_err_eqb me e && eqb_listN mw w && Nat.eqb msc (Z.to_nat sc)
       && Nat.eqb mwc (Z.to_nat wc)
+  | CMultiUse srcs ops k obs cb ca =>
+      let '(mo, mcb, mca) := multi_use srcs (map mop_of ops) (Z.to_nat k) in
+      eqb_outs mo obs && eqb_listnat mcb (map Z.to_nat cb) && eqb_listnat mca (map Z.to_nat ca)
   | CIface w i obs => Bool.eqb (implements w i) obs
   end.
 
@@ -65,6 +98,10 @@ Definition oracle (c : case) : bool :=
   | CTee s b _ _ st _ o e w sc wc =>
       if stopped st e then tee_stop_oracle s o w (Z.to_nat sc) (Z.to_nat wc)
       else tee_oracle s (option_map Z.to_nat b) o e w (Z.to_nat sc) (Z.to_nat wc)
+  | CMultiUse srcs ops _ obs _ ca =>
+      multi_use_oracle srcs (map Z.to_nat ca) &&
+      (* the stream clause speaks of well-formed calls on sources in its domain *)
+      (negb (multi_dom srcs && forallb zop_ok ops) || multi_stream_oracle srcs obs)
   | CIface _ _ _ => true   (* the property does not speak of method sets: correspondence only *)
   end.
 
